@@ -59,7 +59,7 @@ func (propC05) Gen(seed uint64, tier string, idx int) *Plan {
 	failedStream := ""
 	if mode == "failed-stream" {
 		p.Stack.Passthrough = false
-		failedStream = pickS(r, []string{"cut-after-role", "all-malformed-then-done", "oversized-first-line", "comments-then-cut", "comments-then-text", "done-then-oversized-line", "inband-error-only", "inband-error-after-text"})
+		failedStream = pickS(r, []string{"cut-after-role", "all-malformed-then-done", "oversized-first-line", "comments-then-cut", "comments-then-text", "done-then-oversized-line", "inband-error-only", "inband-error-after-text", "panic-mid-stream"})
 		if (failedStream == "oversized-first-line" || failedStream == "done-then-oversized-line") && p.Net.MaxSegment < 16384 {
 			p.Net.MaxSegment = 16384 // a megabyte in 7-byte segments is a hundred thousand events that decide nothing
 		}
@@ -134,6 +134,11 @@ func (propC05) Gen(seed uint64, tier string, idx int) *Plan {
 					chunks = append(chunks, Chunk{Data: done})
 				}
 				ep.Default = Resp{Status: 200, CType: "text/event-stream", Framing: framing, Chunks: chunks}
+			case "panic-mid-stream":
+				// the attempt dies of a panic somewhere below the proxy goroutine after part of the answer has
+				// been relayed (fault point proxy.stream): a failed attempt like any other
+				ep.Default = Resp{Status: 200, CType: "text/event-stream", Framing: framing, Chunks: []Chunk{{Data: role}, {Data: text, Delay: 20 * time.Millisecond}, {Data: text, Delay: 20 * time.Millisecond}, {Data: text, Delay: 20 * time.Millisecond}, {Data: done, Delay: 20 * time.Millisecond}}}
+				p.Panics = map[string]int{"proxy.stream": 350}
 			case "done-then-oversized-line":
 				// not a failure at all: a whole completion, [DONE], and then something the translator cannot
 				// read any more, while the backend still has a megabyte to get rid of. The message is complete;
@@ -312,6 +317,8 @@ func (propC05) Check(r *Run) []Violation {
 			}
 		} else if mode == "failed-stream" && strings.HasSuffix(r.Plan.Sub, "/done-then-oversized-line") {
 			// (a complete answer: only termination is at stake, judged above and by the goroutine checks)
+		} else if mode == "failed-stream" && strings.HasSuffix(r.Plan.Sub, "/panic-mid-stream") && (c05PanicsFired(r) == 0 || bytes.Count(c.Body, []byte("Hello world")) >= 3) {
+			// (the whole text arrived: the panic came after the answer had been relayed; nothing is missing)
 		} else if mode == "failed-stream" && answered.Path == "/v1/chat/completions" {
 			// every attempt failed mid-answer, or answered 200 with nothing a completion could be made of,
 			// before Olla had sent anything: the caller must be told, in its dialect
@@ -336,4 +343,9 @@ func (propC05) Check(r *Run) []Violation {
 		}
 	}
 	return out
+}
+
+func c05PanicsFired(r *Run) int {
+	fl, _ := r.Sim.Counters()
+	return fl["panic.proxy.stream"]
 }
